@@ -632,3 +632,63 @@ def c02_10(R):
         R.ok("restart-inactivity", ri.name, "arm(now, remote_inactivity_timeout, restart = true)")
     else:
         R.fail([ri.name, "shape"], "restart_remote_inactivity_timer no longer re-arms the inactivity timer from now with the configured timeout and restart = true", where=ri.where(), instance="restart-inactivity")
+
+
+def _ok_value_of_send(b, op, depth=0):
+    """the operand is the Ok value of UtpSocket::try_poll_send_to(_vectored), reached only through `?` / map_err / plain match on the Result"""
+    if depth > 8:
+        return None
+    t = trace(b, op)
+    if t.kind != "call":
+        return None
+    c = t.root[1]
+    r = c.resolved or c.callee or ""
+    if r.split("<")[0].endswith(("UtpSocket::try_poll_send_to", "UtpSocket::try_poll_send_to_vectored")) or r.endswith(("::try_poll_send_to", "::try_poll_send_to_vectored")):
+        return c if [f for f in t.fields if not f.startswith(("ControlFlow::Continue.", "Result::Ok."))] == [] else None
+    if r.endswith(("Try>::branch", "Try::branch")):
+        if [f for f in t.fields if not f.startswith("ControlFlow::Continue.")]:
+            return None
+        return _ok_value_of_send(b, c.args[0], depth + 1)
+    if call_matches(c, ("Result::map_err",)):
+        return _ok_value_of_send(b, c.args[0], depth + 1)
+    return None
+
+
+@rule("C02.11", ["C02", "C08", "C03"], ["E4", "E6"], "'the transport is blocked' is only ever concluded from the transport's own Pending",
+      "poll returns Pending early - before any timer is armed (C02.6) - whenever this_poll.transport_pending is true, on the strength of the transport having taken the task's waker. That is true only "
+      "if (a) every non-constant store to the flag is the Ok value of UtpSocket::try_poll_send_to / try_poll_send_to_vectored, reached through `?`/map_err alone, the only constant ever stored is "
+      "false, and (b) those two functions return Ok(true) only in the Poll::Pending arm of Transport::poll_send_to(_vectored). A send *error* turned into 'pending' (an ENOBUFS treated as a full "
+      "socket) parks the task with no waker and no timer: it never ends and never frees its slot.")
+def c02_11(R):
+    F = R.facts
+    n = 0
+    for b in F.bodies(lambda nm: nm.startswith("stream_dispatch::")):
+        for s in b.stmts():
+            if written_field(b, s) != "ThisPoll.transport_pending":
+                continue
+            n += 1
+            o = s.rv.ops[0] if s.rv.ops else None
+            if o is not None and o.kind == "const":
+                if o.scalar in (0, False):
+                    R.ok("transport_pending<-transport", b.name, "reset to false")
+                else:
+                    R.fail([b.name, "transport_pending=const-true"], "this_poll.transport_pending is set to true unconditionally: no transport call registered the waker", where=s.where(), instance="transport_pending<-transport")
+                continue
+            c = _ok_value_of_send(b, o) if o is not None and s.rv.kind == "use" else None
+            if c is not None:
+                R.ok("transport_pending<-transport", b.name, "Ok value of %s via `?`" % short_callee(c.resolved or c.callee))
+            else:
+                R.fail([b.name, "transport_pending<-not-the-send-result", trace(b, o).describe() if o is not None else s.rv.kind],
+                       "this_poll.transport_pending is not simply the Ok value of try_poll_send_to*: some other outcome (an error arm, a default) can set it, and poll then sleeps with neither the transport's "
+                       "wake-up nor a timer", where=s.where(), instance="transport_pending<-transport")
+    R.floor("stores to this_poll.transport_pending", n, 5)
+    for fn, pollfn in (("socket::UtpSocket::try_poll_send_to", "poll_send_to"), ("socket::UtpSocket::try_poll_send_to_vectored", "poll_send_to_vectored")):
+        b = R.body(fn)
+        trues = [d for d in b.all_defs(0) if isinstance(d, Stmt) and d.rv.kind == "agg" and d.rv.j.get("variant") == "Ok" and not (d.rv.ops and d.rv.ops[0].kind == "const" and d.rv.ops[0].scalar in (0, False))]
+        R.floor("Ok(<not false>) exits of " + fn, len(trues), 1)
+        for d in trues:
+            ds = [x for _c, _t, x, *_ in controlling(b, d.bb)]
+            if any(x.startswith("discr:call:") and x.endswith("::%s=Pending" % pollfn) for x in ds):
+                R.ok("Ok(true)=>Pending", fn, "only in the Poll::Pending arm of %s" % pollfn)
+            else:
+                R.fail([fn, "Ok(true)-not-under(Poll::Pending)"] + sorted(ds)[:3], "%s reports 'pending' for an outcome that is not the transport's Poll::Pending: the waker was not registered" % fn, where=d.where(), instance="Ok(true)=>Pending")
